@@ -143,7 +143,7 @@ pub fn run(ctx: &mut RunCtx) {
     p.ws = 1..6;
     p.nested_values = false;
     let many_max = ctx.tier.pick(1400u16, 6000u16);
-    let cases = ctx.tier.pick(400, 1500);
+    let cases = ctx.tier.pick(400, 6000);
     ctx.shrink_iters = 300;
     ctx.explore(
         "growth-histories",
